@@ -55,7 +55,7 @@ def check(ctx, rep):
     alt = ("HMAC", ("const", TBC_SEED), (P(1),))
     for half in (eh, dh):
         kf = c07.key_field(ctx, half)
-        kt = ctx.fb.ty(ctx.fb.adt_fields(half)[kf]["ty"]) if kf is not None else None
+        kt = util.peel_newtype(ctx.fb, ctx.fb.ty(ctx.fb.adt_fields(half)[kf]["ty"])) if kf is not None else None
         rep.check(kt is not None and kt.k == "array" and kt.len == 20, "key-derivation", half, "key-width", "stored key is [u8; 20]", "stored key type is %s" % (kt.s if kt else "?"))
         # every construction site of the half (a helper extracted by a refactoring counts at its
         # call sites): the stored key is HMAC-SHA1(seed; the site's 40-byte session-key parameter)
